@@ -12,10 +12,11 @@ CLAP = json.load(open(dump_path))
 
 import zerv  # from PYTHONPATH=/repo/python
 
-zerv.find_zerv_bin = lambda: BIN
+zerv.find_zerv_bin = lambda: getattr(_tls_bin, "bin", None) or BIN
 _real_run = subprocess.run
 import threading
 _tls = threading.local()
+_tls_bin = threading.local()
 
 
 def _capturing_run(cmd, *a, **kw):
@@ -73,7 +74,7 @@ def values_for(sub, kw, ann):
 
 
 def independent_argv(sub, pos, kwargs):
-    argv = [BIN, sub]
+    argv = [getattr(_tls_bin, "bin", None) or BIN, sub]
     if pos is not None:
         argv.append(pos)
     stdin = None
@@ -218,8 +219,33 @@ def main():
                 rest = [n for n in names if n not in ("source", "stdin", "repo_path")]
                 for a, b in itertools.combinations(rest, 2):
                     jobs.append((sub, pos, {"source": "none", a: vals[a][-1], b: vals[b][0]}))
+    # a command that dies from a signal is a failing command too: (1) the real binary on a template nested deeply enough
+    # to overflow its stack (known finding C13-K1; were that repaired the case becomes an ordinary error), (2) stub
+    # binaries that print a plausible result and then kill themselves with SIGKILL / SIGTERM / SIGABRT / SIGSEGV
+    deep = "{{ " + "(" * 6000 + "major" + ")" * 6000 + " }}"
+    jobs.append(("render", "1.2.3", {"output_template": deep}))
+    jobs.append(("version", None, {"source": "none", "tag_version": "1.2.3", "output_template": deep}))
     with ThreadPoolExecutor(max_workers=16) as ex:
         list(ex.map(lambda j: judge(*j), jobs))
+    import stat, tempfile
+    stub_dir = tempfile.mkdtemp(prefix="zvstub-", dir=os.path.dirname(out_path))
+    for sig in ["KILL", "TERM", "ABRT", "SEGV"]:
+        stub = os.path.join(stub_dir, f"zerv-{sig}")
+        open(stub, "w").write(f"#!/bin/sh\necho 1.2.3\nkill -{sig} $$\nsleep 5\n")
+        os.chmod(stub, os.stat(stub).st_mode | stat.S_IEXEC)
+        _tls_bin.bin = stub
+        for sub, pos in [("version", None), ("flow", None), ("check", "1.2.3"), ("render", "1.2.3")]:
+            judge(sub, pos, {})
+        _tls_bin.bin = None
+    # and a stub that exits 3 after printing, and one that succeeds with surrounding white space (stripped stdout)
+    for name, body, in [("exit3", "echo 9.9.9\nexit 3\n"), ("spaces", "printf '  \\n 7.7.7 \\n\\n'\n")]:
+        stub = os.path.join(stub_dir, f"zerv-{name}")
+        open(stub, "w").write("#!/bin/sh\n" + body)
+        os.chmod(stub, os.stat(stub).st_mode | stat.S_IEXEC)
+        _tls_bin.bin = stub
+        for sub, pos in [("version", None), ("check", "1.2.3")]:
+            judge(sub, pos, {})
+        _tls_bin.bin = None
     json.dump({"violations": violations, "counts": counts, "samples": samples, "keywords": kwcount}, open(out_path, "w"))
 
 
